@@ -3,7 +3,7 @@
 //! `mod verif_harness`.
 //!
 //! @assume coordinates are i32 font units (Point<i32>, the unscaled path; the scaled paths run the same code on F26Dot6/Fixed)
-//! @bound <= 2 contours over 5 points, symbolic coordinates, symbolic on/off/cubic flags, both PathStyles; unwind 9
+//! @bound symbolic coordinates, symbolic on/off/cubic flags, both PathStyles; sizes per harness
 #![allow(unused, clippy::all)]
 
 #[cfg(not(kani))]
@@ -73,7 +73,7 @@ impl OutlinePen for GrammarPen {
     }
 }
 
-fn check(style: PathStyle) {
+fn check(style: PathStyle, max_points: usize, max_contours: usize) {
     let points: [Point<i32>; 5] = [
         Point::new(kani::any(), kani::any()),
         Point::new(kani::any(), kani::any()),
@@ -89,9 +89,9 @@ fn check(style: PathStyle) {
         PointFlags::from_bits(kani::any()),
     ];
     let npts: usize = kani::any();
-    kani::assume(npts <= 5);
+    kani::assume(npts <= max_points);
     let ncont: usize = kani::any();
-    kani::assume(ncont <= 2);
+    kani::assume(ncont <= max_contours);
     let contours: [u16; 2] = kani::any();
     let mut pen = GrammarPen::default();
     let r = to_path(&points[..npts], &flags[..npts], &contours[..ncont], style, &mut pen);
@@ -104,24 +104,43 @@ fn check(style: PathStyle) {
         if pen.segments > 0 {
             assert!(pen.moves > 0);
         }
-        kani::cover!(pen.moves == 2 && pen.segments >= 3, "two contours drawn");
-        kani::cover!(pen.moves == 1 && npts == 5, "one five-point contour");
+        kani::cover!(pen.moves == 1 && pen.segments >= 2, "a contour with at least two segments");
     }
     kani::cover!(r.is_err(), "malformed outline rejected");
 }
 
-// @timeout 1800
+// @bound one contour of <= 3 points
 #[cfg_attr(kani, kani::proof)]
-#[cfg_attr(kani, kani::unwind(9))]
+#[cfg_attr(kani, kani::unwind(7))]
 pub fn c12_to_path_well_formed_freetype_style() {
-    check(PathStyle::FreeType);
+    check(PathStyle::FreeType, 3, 1);
 }
 
-// @timeout 1800
+// @bound one contour of <= 3 points
+#[cfg_attr(kani, kani::proof)]
+#[cfg_attr(kani, kani::unwind(7))]
+pub fn c12_to_path_well_formed_harfbuzz_style() {
+    check(PathStyle::HarfBuzz, 3, 1);
+}
+
+// @bound <= 2 contours over 5 points
+// @tier thorough
+// @timeout 3600
+// @mem 30
 #[cfg_attr(kani, kani::proof)]
 #[cfg_attr(kani, kani::unwind(9))]
-pub fn c12_to_path_well_formed_harfbuzz_style() {
-    check(PathStyle::HarfBuzz);
+pub fn c12_to_path_well_formed_two_contours_freetype_style() {
+    check(PathStyle::FreeType, 5, 2);
+}
+
+// @bound <= 2 contours over 5 points
+// @tier thorough
+// @timeout 3600
+// @mem 30
+#[cfg_attr(kani, kani::proof)]
+#[cfg_attr(kani, kani::unwind(9))]
+pub fn c12_to_path_well_formed_two_contours_harfbuzz_style() {
+    check(PathStyle::HarfBuzz, 5, 2);
 }
 
 #[cfg(all(test, not(kani)))]
